@@ -75,6 +75,13 @@ def oracle_stream(ctx, census=None):
                 for k2 in (("rsa", "ec", "ed") if mlabel.startswith(("cut:", "line:only", "line:first")) else (kind,)):
                     p = None if (slow or pw is None) else rng.choice([None, pw])
                     jobs.append((label, mlabel, k2, p, mdata, pw, kind))
+        for label, kind, pw, data, slow in corp:
+            if pw is None or kind not in ("rsa", "ec"):
+                continue
+            for hi, (mlabel, mdata) in enumerate(kf.header_bitflips(data)):
+                # every flipped header: once with the correct passphrase, once without; entry points alternate
+                jobs.append((label, mlabel, kind, pw, mdata, pw, kind))
+                jobs.append((label, mlabel, kind, None, mdata, pw, kind))
         for wl, kind, pw, data in kf.wrong_type_files(corp):
             for k2 in ("rsa", "ec", "ed"):
                 jobs.append((wl, "intact", k2, None, data, pw, "other"))
@@ -474,11 +481,16 @@ def text_stream(ctx):
                 head = [v for v in cuts if any(v[0].endswith(t) or ("-line-%s-" % t[-1]) in v[0] for t in ("line-0", "line-1", "line-2"))]
                 variants += head + rng.sample([v for v in cuts if v not in head], min(6, len(cuts) - len(head))) \
                     + rng.sample(rest, min(6, len(rest)))
+            hdr_cases = len(variants)
+            if pw is not None and kind in ("rsa", "ec"):
+                variants += list(kf.header_bitflips(data, case_only=True))
             for vi, (mlabel, mdata) in enumerate(variants):
                 k2 = kind if (kind != "other" and rng.random() < 0.8) else rng.choice(["rsa", "ec", "ed"])
                 p = rng.choice([None, pw, "wrong"]) if pw is not None else rng.choice([None, "x"])
                 if mlabel == "intact":
                     p = pw
+                if mlabel.startswith("header-bitflip"):
+                    k2, p = kind, (pw if vi % 4 < 3 else None)
                 if slow and p is not None and mlabel != "intact" and rng.random() < 0.6:
                     p = None
                 use_file = vi % 2 == 0
@@ -528,6 +540,32 @@ def _ssh():
     return SSHException
 
 
+def source_facts(ctx):
+    """generated fact (AST of the bound repo's pkey.py): in _read_private_key_pem every subscript of _CIPHER_TABLE
+    uses the very expression the membership guard tested (a lookup not covered by the guard can raise KeyError)"""
+    import ast
+    import os
+    from pv.core import REPO
+
+    tree = ast.parse(open(os.path.join(REPO, "paramiko", "pkey.py")).read())
+    fn = next((n for n in ast.walk(tree) if isinstance(n, ast.FunctionDef) and n.name == "_read_private_key_pem"), None)
+    ctx.case(("source-fact", "_CIPHER_TABLE"), True)
+    if fn is None:
+        ctx.disagree("source fact: _read_private_key_pem", {}, "function present", "missing")
+        return
+
+    def is_table(x):
+        return isinstance(x, ast.Attribute) and x.attr == "_CIPHER_TABLE"
+    guards = [ast.unparse(n.left) for n in ast.walk(fn) if isinstance(n, ast.Compare) and len(n.ops) == 1
+              and isinstance(n.ops[0], (ast.In, ast.NotIn)) and is_table(n.comparators[0])]
+    subs = [ast.unparse(n.slice) for n in ast.walk(fn) if isinstance(n, ast.Subscript) and is_table(n.value)]
+    ctx.extra["cipher_table_guard"] = guards
+    ctx.extra["cipher_table_lookups"] = subs
+    if len(set(guards)) != 1 or any(x != guards[0] for x in subs):
+        ctx.disagree("source fact: _CIPHER_TABLE lookups use the guarded expression", {"guards": guards, "lookups": subs},
+                     "one guard expression, every lookup on it", "guards %r, lookups %r" % (guards, subs))
+
+
 def run(ctx):
     ctx.rule = ("oracle: every bundled key file (18, PEM and OpenSSH, with/without passphrase, incl. an Ed448 and an empty file) "
                 "and freshly generated RSA/ECDSA(3 curves)/Ed25519 files in both formats with/without passphrase (bcrypt rounds "
@@ -546,7 +584,7 @@ def run(ctx):
                "load_der_private_key raises only ValueError/TypeError/UnsupportedAlgorithm",
                "bcrypt round counts above 64 in mutated files are not executed (generator cap, counted as skipped)")
     ctx.build()
-    for stream in (container_stream, text_stream, oracle_stream):
+    for stream in (source_facts, container_stream, text_stream, oracle_stream):
         lk.guarded(ctx, stream)
 
 
